@@ -473,22 +473,21 @@ func classOf(s *site, x, y string) string {
 	if isIfaceCtx(s.Ctx) && s.resultKind().Under != "" {
 		return "defined-type-dynamic-type"
 	}
-	// (F02-4 `x / 0.0` and F02-14 `var e interface{} = (-4) << b` are repaired, 03fb34b and 48cb9d4: no class any more)
-	// F02-9, what is left of it: an UNTYPED integer constant outside the int32 range is truncated to its low 32 bits
-	if s.Op == "conv" && s.K2 == "string" && s.Form == "c" && s.CKind != "typed" && s.kind().isInt() {
-		if v, ok := new(big.Int).SetString(s.CL, 10); ok && (v.Cmp(big.NewInt(math.MinInt32)) < 0 || v.Cmp(big.NewInt(math.MaxInt32)) > 0) {
-			return "conv-const-int-to-string"
+	// (F02-4, F02-9, F02-10, F02-11, F02-14 are repaired — 03fb34b, a1f1717, 149d328, 48cb9d4 —: `x / 0.0`, string(c) of a
+	// constant outside the rune range, -c on typed floating-point and complex constants and `(-4) << b` have no class any
+	// more)
+	// F02-12, what 149d328 leaves of it: `var e interface{} = c0 * c1`, `return c0 / c1` into an interface result with two
+	// typed floating-point (one of them zero) or complex constants is not folded (the node has the interface type) and is
+	// computed by the run-time closure at run-time precision
+	if (s.Op == "mul" || s.Op == "quo") && s.Form == "cc" && (s.Ctx == "ifacevar" || s.Ctx == "ifaceret" || s.Ctx == "ifaceret2") {
+		switch s.kind().Class {
+		case "float":
+			if isZeroConst(s.CL) || isZeroConst(s.CR) {
+				return "const-fold-iface-decl"
+			}
+		case "complex":
+			return "const-fold-iface-decl"
 		}
-	}
-	if s.Op == "neg" && s.Form == "c" && s.kind().Class == "float" && isZeroConst(s.CL) {
-		return "neg-const-float-zero"
-	}
-	if s.kind().Class == "float" && s.Form == "cc" && (s.Op == "mul" || s.Op == "quo") && (isZeroConst(s.CL) || isZeroConst(s.CR)) {
-		return "const-fold-float-zero"
-	}
-	// F02-11, what is left of it: zero signs / last-bit differences of -c, c1*c2, c1/c2 on typed complex constants
-	if s.kind().Class == "complex" && (s.Form == "c" && s.Op == "neg" || s.Form == "cc" && (s.Op == "mul" || s.Op == "quo")) {
-		return "const-complex-typed"
 	}
 	return ""
 }
@@ -496,8 +495,7 @@ func classOf(s *site, x, y string) string {
 // isIfaceCtx: contexts whose destination is an interface value (the result is printed as %T:%v).
 func isIfaceCtx(ctx string) bool { return strings.HasPrefix(ctx, "iface") }
 
-// watched names the input classes of the REPAIRED findings (F02, F02-2, F02-3, F02-4, F02-5, F02-7, F02-8, F02-14 and
-// the repaired parts of F02-9, F02-11): they are no
+// watched names the input classes of the REPAIRED findings (F02, F02-2 … F02-12, F02-14): they are no
 // longer suppressed, only counted, so that the evidence shows the default stream still contains them.
 func watched(s *site, x, y string) []string {
 	var out []string
@@ -531,6 +529,12 @@ func watched(s *site, x, y string) []string {
 	}
 	if s.kind().Class == "complex" && (s.Form == "c" || s.Form == "cc") {
 		out = append(out, "F02-11:typed-complex-constant/"+s.Op)
+	}
+	if s.Op == "neg" && s.Form == "c" && s.kind().Class == "float" && isZeroConst(s.CL) {
+		out = append(out, "F02-10:neg-typed-float-zero-constant")
+	}
+	if s.kind().Class == "float" && s.Form == "cc" && (s.Op == "mul" || s.Op == "quo") && (isZeroConst(s.CL) || isZeroConst(s.CR)) {
+		out = append(out, "F02-12:fold-typed-float-zero-constant/"+s.Op)
 	}
 	if strings.HasPrefix(s.Ctx, "ret") && (negZero(s.kind(), x) || negZero(s.kind2(), y)) {
 		w := "F02-5:negzero-argument/" + s.Ctx
